@@ -377,7 +377,7 @@ func c16Main(args []string) error {
 			c16Record(tr, out, done, &o)
 			done++
 			crashes++
-			if crashes > 200 {
+			if crashes > 200+len(coords)/6 {
 				return fmt.Errorf("too many worker crashes")
 			}
 		}
